@@ -76,7 +76,7 @@ impl Engine for C01 {
     fn runs(&self, tier: Tier) -> u64 {
         match tier {
             Tier::Quick => 3000,
-            Tier::Thorough => 150000,
+            Tier::Thorough => 40000,
         }
     }
     fn cpu_budget_s(&self, _tier: Tier) -> f64 {
